@@ -167,6 +167,44 @@ class Tables(Family):
         return Result(outcome, nontriv_any, None, calls)
 
 
+class TablesTwoFree(Tables):
+    """4x4 tables with partial credits: two inputs arbitrary, the other two earning credit from exactly one answer"""
+
+    def __init__(self, name, tiers, transposed=False):
+        Tables.__init__(self, name, 4, (0, 0.5, 1), tiers)
+        self.transposed = transposed
+        who = ('answers A0, A1 arbitrary, answers A2, A3 credit exactly one input' if transposed
+               else 'inputs I0, I1 arbitrary, inputs I2, I3 earn credit from exactly one answer')
+        self.rule = ('every 4x4 credit table over (0, 0.5, 1) in which %s (81 x 81 x 8 x 8 tables), unordered with partial '
+                     'credit: one-to-one assignment with brute-force maximal total' % who)
+
+    def setup(self, tier):
+        Tables.setup(self, tier)
+        self.graders = {k: v for k, v in self.graders.items() if k == (False, True)}
+        self.free = list(itertools.product(self.palette, repeat=4))
+        self.single = [r for r in self.free if sum(1 for x in r if x) == 1]
+
+    def cases(self, tier):
+        if tier not in self.tiers:
+            return iter(())
+        return iter(range(81 * 81 * 8 * 8))
+
+    def table_of(self, idx):
+        idx, a = divmod(idx, 81)
+        idx, b = divmod(idx, 81)
+        idx, c = divmod(idx, 8)
+        idx, d = divmod(idx, 8)
+        rows = [self.free[a], self.free[b], self.single[c], self.single[d]]
+        t = {}
+        for j in range(4):
+            for k in range(4):
+                if self.transposed:
+                    t[(self.answers[j], self.inputs[k])] = rows[j][k]
+                else:
+                    t[(self.answers[k], self.inputs[j])] = rows[j][k]
+        return t
+
+
 CREDITS = (1, 0.5, 0.3, 0.7, 0.9, 0.2)
 
 
@@ -229,7 +267,8 @@ class TwoLists(Family):
         self.nlists = nlists
         self.rule = ('every %d-tuple of %dx%d credit tables over %s, one per alternative answer list, x ordered {T,F}: the '
                      'reported entries must all come from ONE list, form a valid assignment for it, and total the maximum '
-                     'over lists' % (nlists, n, n, palette))
+                     'over lists (also with partial_credit=False, where the entries are zeroed but still name the list they were '
+                     'graded against)' % (nlists, n, n, palette))
 
     def setup(self, tier):
         n = self.n
@@ -237,9 +276,10 @@ class TwoLists(Family):
         self.inputs = ['I%d' % j for j in range(n)]
         self.graders = {}
         for ordered in (False, True):
-            sub = TableGrader(table={}, name_pairs=True)
-            g = ListGrader(answers=tuple(list(L) for L in self.lists), subgraders=sub, ordered=ordered)
-            self.graders[ordered] = (g, sub)
+            for pc in (True, False):
+                sub = TableGrader(table={}, name_pairs=True)
+                g = ListGrader(answers=tuple(list(L) for L in self.lists), subgraders=sub, ordered=ordered, partial_credit=pc)
+                self.graders[(ordered, pc)] = (g, sub)
 
     def cases(self, tier):
         if tier not in self.tiers:
@@ -266,15 +306,15 @@ class TwoLists(Family):
         table = self.table_of(case)
         calls = 0
         nontriv = False
-        for ordered, (g, sub) in self.graders.items():
+        for (ordered, pc), (g, sub) in self.graders.items():
             sub.config['table'] = table
             calls += 1
             try:
                 res = g(None, list(self.inputs))
             except Exception as e:
                 return Result('raised', True, viol('lists:raised', '%r' % e), calls)
-            o, nt, v = check_flat(res, self.inputs, self.lists, table, ordered, True,
-                                  'lists:%s' % ('ordered' if ordered else 'unordered'))
+            o, nt, v = check_flat(res, self.inputs, self.lists, table, ordered, pc,
+                                  'lists:%s%s' % ('ordered' if ordered else 'unordered', '' if pc else ':nopartial'))
             nontriv = nontriv or nt
             if v:
                 return Result(o, True, v, calls)
@@ -501,6 +541,8 @@ def families(tier):
         Tables('tables_3x3_bin', 3, (0, 1), ('quick',)),
         Tables('tables_3x3', 3, (0, 0.5, 1), ('quick', 'thorough')),
         Tables('tables_4x4_bin', 4, (0, 1), ('quick', 'thorough')),
+        TablesTwoFree('tables_4x4_two_free_inputs', ('quick', 'thorough')),
+        TablesTwoFree('tables_4x4_two_free_answers', ('thorough',), transposed=True),
         Tables('tables_2x2_fine', 2, (0, 0.1, 0.3, 1.0 / 3, 0.5, 0.7, 1), ('quick', 'thorough')),
         Orders(),
         TwoLists('two_lists_2x2', 2, (0, 0.5, 1), ('quick', 'thorough')),
